@@ -30,6 +30,10 @@ func Gen(t *rapid.T, p Profile) Spec {
 		MaxRestarts: rapid.IntRange(0, p.MaxBudget).Draw(t, "budget"),
 		Chain:       rapid.IntRange(0, p.MaxChain).Draw(t, "chain"),
 	}
+	if s.Chain >= 2 {
+		s.Split = rapid.IntRange(0, s.Chain-1).Draw(t, "split")
+	}
+	s.SpawnCtx = rapid.SampledFrom([]string{"", "", "live", "cancelled"}).Draw(t, "spawn_ctx")
 	if p.MaxChildren > 0 {
 		s.Children = rapid.IntRange(0, p.MaxChildren).Draw(t, "children")
 	}
